@@ -14,7 +14,15 @@ event of each sequence is judged (every prefix is itself an enumerated sequence)
 * every reset=True instance created during the history yields exactly its own marker issues,
   one per object of the registered class in its scope - also when re-run at the end.
 
-A second layer validates the saved family in child processes with different hash seeds."""
+The family holds, besides plain documents, string Properties whose values look like other dtypes (of one kind and
+mixed: ties and majorities) and documents in a state a validator might 'helpfully' complete: Sections with a link or an
+include (file: URL) that is not resolved, with and without cardinalities, next to resolved ones. The snapshot covers
+attributes (link, include), values, children by identity and the resolved / unresolved state of every Section. The
+document is also written out, read back and validated: the loaded copy must stay as it was loaded, too.
+
+A second layer validates the saved family (plus every combination of look-alike kinds within one Property) in child
+processes with 8 (quick) / 24 (thorough) different hash seeds: same issues as the reference process, same issues when
+repeated, loaded document unchanged."""
 import collections
 import itertools
 import json
@@ -109,11 +117,65 @@ R = {"R1": _marker("R1"), "R2": _marker("R2")}
 
 # --------------------------------------------------------------------------- documents
 
+def _P(name, **k):
+    return {"name": name, "values": k.pop("values", ["x"]), "dtype": k.pop("dtype", "string"), "attrs": k}
+
+
+def _S(name, typ="t", secs=(), props=(), **k):
+    return {"name": name, "type": typ, "sections": list(secs), "properties": list(props), "attrs": k}
+
+
+# string values that look like values of another dtype: one class per pattern of the string-values rule, two
+# members each (a Property of one class needs two values to be told from a single value), plus a plain word
+LOOKALIKE = collections.OrderedDict([
+    ("int", ["1", "2"]), ("float", ["2.5", "0.5"]), ("boolean", ["true", "false"]),
+    ("date", ["2020-01-01", "1999-12-31"]), ("time", ["12:30", "13:45:10"]),
+    ("datetime", ["2020-01-01 12:30:00", "1999-12-31 23:59"]), ("2-tuple", ["(1;2)", "(3;4)"]),
+    ("text", ["a\nb", "c\nd"]), ("string", ["x", "y z"])])
+LOOKALIKE_CORE = ["int", "float", "boolean", "date", "string"]
+
+_INCLUDE_XML = """<?xml version="1.0" encoding="UTF-8"?>
+<odML version="1.1">
+  <id>5eed1111-0000-4000-8000-000000000001</id>
+  <section>
+    <id>5eed1111-0000-4000-8000-000000000002</id>
+    <type>hardware</type>
+    <name>included</name>
+    <definition>an included Section</definition>
+    <section>
+      <id>5eed1111-0000-4000-8000-000000000003</id>
+      <type>hardware/filter</type>
+      <name>filter</name>
+    </section>
+    <property>
+      <id>5eed1111-0000-4000-8000-000000000004</id>
+      <name>gain</name>
+      <value>10</value>
+      <type>int</type>
+    </property>
+    <property>
+      <id>5eed1111-0000-4000-8000-000000000005</id>
+      <name>model</name>
+      <value>[A1,B2]</value>
+      <type>string</type>
+    </property>
+  </section>
+</odML>
+"""
+
+
+def include_url():
+    """file: URL of a small odML file of this process (written on first use) an `include` can point to."""
+    path = os.path.join(env.scratch_root(), "c19-include.xml")
+    if not os.path.exists(path):
+        with open(path + ".part", "w") as fh:
+            fh.write(_INCLUDE_XML)
+        os.replace(path + ".part", path)
+    return "file://" + path
+
+
 def family():
-    P = lambda name, **k: dict({"name": name, "values": k.pop("values", ["x"]), "dtype": k.pop("dtype", "string"),
-                                "attrs": k}, )
-    S = lambda name, typ="t", secs=(), props=(), **k: {"name": name, "type": typ, "sections": list(secs),
-                                                        "properties": list(props), "attrs": k}
+    P, S = _P, _S
     fam = collections.OrderedDict()
     fam["valid"] = docs.doc_of([S("s1", props=[P("p1"), P("p2", values=[1, 2], dtype="int")],
                                   secs=[S("s11", props=[P("q")])])], author="me")
@@ -133,6 +195,58 @@ def family():
     # a document that names a terminology (not loadable: no network, the file does not exist)
     fam["repo"] = docs.doc_of([S("s1", "stim", props=[P("p1", values=["1", "2"]), P("p2")], secs=[S("s11", "n.s.")])],
                               repository="file:///nonexistent/odml-terminology.xml")
+    # string Properties whose values look like values of other dtypes: of one kind, of several kinds (ties and
+    # majorities), with and without a plain word among them
+    L = LOOKALIKE
+    fam["lookalikes"] = docs.doc_of([S("s1", props=[
+        P("m1", values=[L["int"][0], L["float"][0]]), P("m2", values=[L["int"][0], L["boolean"][0]]),
+        P("m3", values=[L["date"][0], L["int"][0]]), P("m4", values=L["int"] + ["3.5"]),
+        P("m5", values=[L["int"][0], L["float"][0], L["string"][0]]), P("m6", values=L["int"] + L["float"]),
+        P("u1", values=list(L["boolean"]))])])
+    # documents in a state a validator might 'helpfully' complete: links and includes that are not resolved (yet),
+    # with and without cardinalities; a link and an include that are resolved. The first Section is itself an
+    # unresolved link (the cardinality events act on it). "detached" Sections are built without parent and
+    # appended afterwards, "resolve" ones are resolved after the document is complete (see build_with_links).
+    amp = lambda: S("amp", "hardware", definition="an amplifier", reference="ref-1",
+                    props=[P("gain", values=[10], dtype="int"), P("model", values=["A1", "B2"])],
+                    secs=[S("filter", "hardware/filter", props=[P("cutoff", values=[0.5], dtype="float")])])
+    fam["links"] = docs.doc_of([
+        S("l0", "hardware", link="/amp", props=[P("own")]),
+        amp(),
+        S("l1", "hardware", link="/amp", prop_cardinality=[3, None]),
+        S("l2", "hardware", link="/amp", sec_cardinality=[1, None], detached=True),
+        S("l4", "hardware", link="/amp", prop_cardinality=[1, None], resolve=True),
+        S("i1", "hardware", include="@include@", prop_cardinality=[1, None], sec_cardinality=[1, None])])
+    # further members of the class (short histories and the other-process layer only, see gen_cases): maxima that
+    # resolving would violate, a link that leads nowhere, a link to a linking Section, links below the top level,
+    # includes without cardinality and resolved
+    fam["links-more"] = docs.doc_of([
+        S("l3", "hardware", link="/amp", prop_cardinality=[None, 1], sec_cardinality=[None, 0], detached=True,
+          props=[P("own")]),
+        amp(),
+        S("l5", "hardware", link="/missing", prop_cardinality=[1, None], sec_cardinality=[1, None]),
+        S("l6", "hardware", link="/amp"),
+        S("holder", secs=[S("inner", "hardware/filter", link="/amp/filter", prop_cardinality=[1, None]),
+                          S("chain", "hardware", link="/l6", sec_cardinality=[1, 2], detached=True)]),
+        S("i2", "hardware", include="@include@", detached=True),
+        S("i3", "hardware", include="@include@", sec_cardinality=[1, None], resolve=True)])
+    return fam
+
+
+def cross_family():
+    """The family of the other-process layer: the family of the histories and documents that would be too large
+    there: every combination of look-alike kinds within one string Property."""
+    fam = family()
+    L, core = LOOKALIKE, LOOKALIKE_CORE
+    single = [_P("one_%s" % k, values=[L[k][0]]) for k in L]
+    same = [_P("same_%s" % k, values=list(L[k])) for k in L]
+    pairs = [_P("pair_%s_%s" % (a, b), values=[L[a][0], L[b][0]]) for a, b in itertools.combinations(L, 2)]
+    triples = [_P("tie3_%s_%s_%s" % c, values=[L[k][0] for k in c]) for c in itertools.combinations(core, 3)]
+    major = [_P("major_%s_%s" % (a, b), values=L[a] + [L[b][0]]) for a, b in itertools.permutations(core, 2)]
+    tie4 = [_P("tie4_%s_%s" % (a, b), values=L[a] + L[b]) for a, b in itertools.combinations(core, 2)]
+    fam["lookalikes-all"] = docs.doc_of([_S("single", props=single), _S("same", props=same), _S("pairs", props=pairs),
+                                         _S("triples", props=triples), _S("majorities", props=major),
+                                         _S("ties", props=tie4)])
     return fam
 
 
@@ -155,12 +269,48 @@ def fix_cards(spec):
 _FAM = None
 
 
+def build_with_links(spec):
+    """docs.build for specs whose Sections carry the markers `detached` (built without parent, appended when
+    complete: a link / include given to the constructor stays unresolved either way, this is the other route to
+    that state), `resolve` (link / include resolved through merge() once the document is complete) and the include
+    place holder."""
+    import odml
+    later = []
+
+    def rec(specs, parent):
+        for s in specs:
+            attrs = dict(s["attrs"])
+            detached, resolve = attrs.pop("detached", False), attrs.pop("resolve", False)
+            if attrs.get("include") == "@include@":
+                attrs["include"] = include_url()
+            kw = {k: docs.dec(v) for k, v in attrs.items()}
+            sec = odml.Section(name=s["name"], type=s["type"], parent=None if detached else parent, **kw)
+            for p in s["properties"]:
+                docs.build_property(p, sec)
+            rec(s["sections"], sec)
+            if detached:
+                parent.append(sec)
+            if resolve:
+                later.append(sec)
+
+    d = odml.Document(**{k: docs.dec(v) for k, v in spec["attrs"].items()})
+    rec(spec["sections"], d)
+    for sec in later:
+        sec.merge()
+        if not sec.is_merged:
+            raise env.HarnessError("the link / include of %r could not be resolved while building" % sec.name)
+    return d
+
+
 def build(name):
     global _FAM
     if _FAM is None:
-        _FAM = {k: fix_cards(v) for k, v in family().items()}
+        _FAM = {k: fix_cards(v) for k, v in cross_family().items()}
     import odml
-    d = docs.build(_FAM[name])
+    if name.startswith("links"):
+        d = build_with_links(_FAM[name])
+    else:
+        d = docs.build(_FAM[name])
     if name == "errors":
         secs = list(list.__iter__(d.sections))
         secs[1].new_id(secs[0].id)
@@ -180,6 +330,7 @@ CUSTOMS = ["C:%s:%s" % (k, r) for k in ("odML", "section", "property") for r in 
            "C:section:R1:reset-only", "C:property:R2:reset-only"]
 EDITS = ["E:append-value", "E:setitem-value", "E:section-attached", "E:section-detached", "E:property-attached", "E:property-detached",
          "E:section-with-cardinality", "E:property-with-cardinality",
+         "E:linked-section-appended", "E:lookalike-property-attached",
          "K:sec_cardinality", "K:prop_cardinality", "K:val_cardinality", "K:set_values_cardinality"]
 IO = ["S:XML", "S:JSON", "S:YAML", "L:XML", "L:JSON", "L:YAML"]
 ALPHABET = VALIDATIONS + CUSTOMS + EDITS + IO
@@ -228,6 +379,31 @@ def subtree(root):
     return out
 
 
+def merged_state(root):
+    """Link / include state of every Section below root: resolved or not, and with which object."""
+    from odml.section import BaseSection
+    out = []
+    for o in subtree(root):
+        if isinstance(o, BaseSection):
+            try:
+                m = o.get_merged_equivalent()
+                out.append([bool(o.is_merged), None if m is None else id(m), bool(o.can_be_merged)])
+            except Exception as exc:
+                out.append(["<raises>", type(exc).__name__])
+    return out
+
+
+def snap_obj(o):
+    """What a validation must leave as it is: attributes (link and include among them), values, children by
+    content and identity (mc.snapshot), and the resolved / unresolved state of links and includes."""
+    s = snapshot.snap(o, identity=True)
+    return {"content": s, "merged": merged_state(o)}
+
+
+def snap_world(w):
+    return [snap_obj(o) for o in w.watched()]
+
+
 def is_validation_event(ev):
     return ev[0] in "VC"
 
@@ -272,7 +448,7 @@ def apply_event(w, ev, judge):
     from odml.tools.dict_parser import DictWriter
     bad = []
     w.n += 1
-    before = [snapshot.snap(o, identity=True) for o in w.watched()] if judge and is_validation_event(ev) else None
+    before = snap_world(w) if judge and is_validation_event(ev) else None
     kind = ev.split(":")
     outcome = "ok"
     try:
@@ -346,6 +522,19 @@ def apply_event(w, ev, judge):
             odml.Section(name="new%d" % w.n, type="t", parent=w.doc, sec_cardinality=(1, None), prop_cardinality=2)
         elif ev == "E:property-with-cardinality":
             w.extra.append(odml.Property(name="new%d" % w.n, values=[1], val_cardinality=(2, 3)))
+        elif ev == "E:linked-section-appended":
+            # a Section that links to the first Section and wants content: built on its own, appended afterwards,
+            # which leaves the link unresolved
+            first = w.first_section()
+            sec = odml.Section(name="new%d" % w.n, type=first.type if first is not None else "t",
+                               link=first.get_path() if first is not None else "/missing",
+                               prop_cardinality=(1, None), sec_cardinality=(1, None))
+            w.doc.append(sec)
+        elif ev == "E:lookalike-property-attached":
+            s = w.first_section()
+            if s is not None:
+                odml.Property(name="new%d" % w.n, values=[LOOKALIKE["int"][0], LOOKALIKE["float"][0]], dtype="string",
+                              parent=s)
         elif ev == "K:sec_cardinality":
             s = w.first_section()
             if s is not None:
@@ -387,7 +576,7 @@ def apply_event(w, ev, judge):
             if judge:
                 bad.append(("event-raises", "%s: %s" % (type(exc).__name__, exc)))
     if before is not None:
-        after = [snapshot.snap(o, identity=True) for o in w.watched()]
+        after = snap_world(w)
         if after != before:
             df = snapshot.diff(before, after)
             bad.append(("validation-changed-the-validated-objects", snapshot.short(df)))
@@ -416,6 +605,7 @@ def run_history(name, events, scratch, judge_last=True, only_edits=False):
     bad, outcome = [], "ok"
     for i, ev in enumerate(events):
         if only_edits and is_validation_event(ev):
+            w.n += 1          # objects created later get the names they get in the full history
             continue
         judge = judge_last and i == len(events) - 1
         outcome, b = apply_event(w, ev, judge)
@@ -458,7 +648,7 @@ def _run(case, scratch):
     delta = registry_delta()
     if delta:
         fail("default-rule-registry-changed", delta)
-    snap_before = [snapshot.snap(o, identity=True) for o in w.watched()]
+    snap_before = snap_world(w)
     got = default_issues(w)
     if any(k[2] == "custom_validation" for k in got):
         fail("custom-rule-shows-up-in-a-default-validation", sorted(k for k in got if k[2] == "custom_validation")[:3])
@@ -472,16 +662,22 @@ def _run(case, scratch):
             text = str(XMLWriter(w.doc))
             fresh_doc = XMLReader(ignore_errors=True, show_warnings=False).from_string(text)
             live = issues_of(_V(w.doc), [w.doc])
+            loaded = snap_obj(fresh_doc)
             fresh = issues_of(_V(fresh_doc), [fresh_doc])
             if live != fresh:
                 fail("a-freshly-loaded-copy-validates-differently", describe_delta(live, fresh))
+            # a document as the readers hand it over (links and includes not resolved) is left as it is, too
+            after = snap_obj(fresh_doc)
+            if after != loaded:
+                fail("validation-changed-the-validated-objects",
+                     {"freshly loaded copy": snapshot.short(snapshot.diff(loaded, after))})
         except Exception as exc:
             fail("event-raises", "writing / reloading the document for the fresh-copy comparison: %s: %s"
                  % (type(exc).__name__, exc))
     again = default_issues(w)
     if again != got:
         fail("validating-twice-gives-different-issues", describe_delta(again, got))
-    if [snapshot.snap(o, identity=True) for o in w.watched()] != snap_before:
+    if snap_world(w) != snap_before:
         fail("validation-changed-the-validated-objects", "default validation at the end of the history")
     # every private instance still reports exactly its own rules
     for v, reg, root in w.customs:
@@ -538,8 +734,11 @@ for name, fmt in %(files)r:
     doc = ODMLReader(fmt, show_warnings=False).from_file(path)
     w = type("W", (), {"watched": lambda self: [doc]})()
     res = {}
+    before = c19.snap_obj(doc)
     for rep in (0, 1):
-        res[rep] = sorted([list(map(str, k)), n] for k, n in c19.default_issues(w).items())
+        res[str(rep)] = sorted([list(map(str, k)), n] for k, n in c19.default_issues(w).items())
+    after = c19.snap_obj(doc)
+    res["changed"] = None if after == before else c19.snapshot.short(c19.snapshot.diff(before, after))
     out[name + "." + fmt] = res
 env.say("RESULT" + json.dumps(out, sort_keys=True))
 """
@@ -552,7 +751,7 @@ def cross_process(run, tier):
     scratch = env.fresh_dir("c19x")
     files = []
     try:
-        for name in family():
+        for name in cross_family():
             if name == "errors":
                 continue          # cannot be saved through the validating writers; XMLWriter below takes it
             d = build(name)
@@ -567,7 +766,10 @@ def cross_process(run, tier):
         list(list.__iter__(list(list.__iter__(d.sections))[0].sections))[1]._name = "y"
         XMLWriter(d).write_file(os.path.join(scratch, "errors.xml"))
         files.append(("errors", "XML"))
-        seeds = ["0", "1", "2", "3"] if tier == "quick" else [str(i) for i in range(12)]
+        # hash seeds: a fixed list; a verdict that hangs on the iteration order of a set of two strings shows both
+        # of its faces within 8 seeds for all practical purposes (each of the many tied Properties of the family is
+        # an independent trial)
+        seeds = [str(i) for i in range(8)] if tier == "quick" else [str(i) for i in range(24)]
         procs = []
         for hs in seeds:
             code = CHILD % {"verif": env.VERIF, "repo": env.REPO, "files": files, "dir": scratch}
@@ -588,15 +790,26 @@ def cross_process(run, tier):
             base = results[ref_seed][fname]["0"]
             total += len(base)
             for hs in seeds:
+                run.transitions += 1
+                run.evaluations += 1
+                if results[hs][fname]["changed"] is not None:
+                    fails.append(report.failure("other-process", {
+                        "clause": "validation-changed-the-validated-objects", "file": fname},
+                        {"cross_process": True, "file": fname, "hash_seed": hs},
+                        observed=results[hs][fname]["changed"]))
                 for rep in ("0", "1"):
                     run.transitions += 1
                     run.evaluations += 1
-                    if results[hs][fname][rep] != base:
+                    # first validation: what the reference process reported; second one: what this process
+                    # reported the first time
+                    ref = results[ref_seed][fname]["0"] if rep == "0" else results[hs][fname]["0"]
+                    if results[hs][fname][rep] != ref:
                         fails.append(report.failure("other-process", {
                             "clause": "another-process-reports-different-issues" if rep == "0"
                             else "validating-twice-gives-different-issues", "file": fname},
                             {"cross_process": True, "file": fname, "hash_seed": hs},
-                            observed=results[hs][fname][rep][:4], expected=base[:4]))
+                            observed=[x for x in results[hs][fname][rep] if x not in ref][:4],
+                            expected=[x for x in ref if x not in results[hs][fname][rep]][:4]))
         run.add_failures(fails)
         run.nontrivial += 1 if total else 0
         run.layer("other-process", files=len(files), child_processes=len(seeds), issues_in_reference=total)
@@ -610,7 +823,7 @@ def gen_cases(tier):
     names = list(family())
     cases = []
     if tier == "quick":
-        plan = [(1, ALPHABET, names), (2, ALPHABET, names), (3, REDUCED, names)]
+        plan = [(1, ALPHABET, names), (2, ALPHABET, names), (3, REDUCED, [n for n in names if n != "links-more"])]
     else:
         plan = [(1, ALPHABET, names), (2, ALPHABET, names), (3, ALPHABET, names),
                 (4, REDUCED, ["warnings", "cards", "errors"])]
